@@ -338,6 +338,9 @@ type HookResponse struct {
 	Header http.Header
 	Body   []byte
 	Err    error // transport error
+	// ContentLength, when non-zero, is what the response claims in its Content-Length header (http.Response.ContentLength)
+	// instead of the true body length: the hook controls that header too.
+	ContentLength int64
 }
 
 // HookHandler answers one hook call.
@@ -395,8 +398,12 @@ func (h *HookClient) Do(req *http.Request) (*http.Response, error) {
 	if hdr == nil {
 		hdr = http.Header{}
 	}
+	cl := int64(len(resp.Body))
+	if resp.ContentLength != 0 {
+		cl = resp.ContentLength
+	}
 	return &http.Response{StatusCode: resp.Code, Status: fmt.Sprintf("%d %s", resp.Code, http.StatusText(resp.Code)), Proto: "HTTP/1.1", ProtoMajor: 1, ProtoMinor: 1,
-		Header: hdr, Body: io.NopCloser(bytes.NewReader(resp.Body)), ContentLength: int64(len(resp.Body)), Request: req}, nil
+		Header: hdr, Body: io.NopCloser(bytes.NewReader(resp.Body)), ContentLength: cl, Request: req}, nil
 }
 
 // Take returns and clears the logged exchanges.
